@@ -4,7 +4,7 @@ CONSTANTS
   Fmt = "T3"
   Ops = "multi"
   Stride3 = 61
-  StrideF = 61
+  StrideF = 251
   Stride4 = 4093
   Off = 0
   XAdd <- TabAdd
